@@ -288,6 +288,16 @@ func (V *Verifier) report(spec *propSpec, res *checkResult, tier string, seed in
 	samples := V.sampleObligations(all, failed)
 	samples = append(res.batterySamples, samples...)
 	funcs := append([]string(nil), spec.Funcs...)
+	for _, x := range spec.Extras {
+		if x == "table:typing" {
+			var rn []string
+			for n := range V.CS.Rules {
+				rn = append(rn, n)
+			}
+			sort.Strings(rn)
+			funcs = append(funcs, fmt.Sprintf("grammar.g (rule table of grammar.go; rule contracts on: %s)", strings.Join(rn, ", ")))
+		}
+	}
 	var imprecise, notes []string
 	for _, k := range spec.Funcs {
 		if e := V.encs[k]; e != nil {
